@@ -78,6 +78,9 @@ impl MT296 {
             });
         }
 
+        // Reject anything left after the last field of the type
+        verify_parser_complete(&parser)?;
+
         Ok(MT296 {
             field_20,
             field_21,
